@@ -219,10 +219,12 @@ class Recorder:
             old = self.infos.get(sp['sid'])
             oldsp = self.specs.get(sp['sid'])
             if (old is not None and oldsp is not None and st.get('same_object')
-                    and all(oldsp[k] == sp[k] for k in ('type', 'name', 'host', 'addrs', 'txt', 'host_ttl', 'other_ttl'))):
-                # the application mutates the object it registered and calls update (only the port changed)
+                    and all(oldsp[k] == sp[k] for k in ('type', 'name', 'host', 'addrs', 'txt'))):
+                # the application mutates the object it registered and calls update (port and / or TTLs changed)
                 info = old
                 info.port = sp['port']
+                info.host_ttl = sp['host_ttl']
+                info.other_ttl = sp['other_ttl']
             else:
                 info = self.make_info(sp)
             self.ev('api', op='upd', svc=expected_records(self.it, sp))
@@ -524,7 +526,8 @@ def gen_query(rng: random.Random, svcs: List[dict], focus: str) -> dict:
     if rng.random() < legacy_p:
         st['port'] = rng.choice([40000, 1024, 65535, 5354])
     for q in st['qs']:
-        q['qu'] = rng.random() < ({'c11': 0.5}.get(focus, 0.2)) and 'port' not in st
+        # the QU bit also on queries from other ports (a legacy resolver that sets it still gets its unicast reply)
+        q['qu'] = rng.random() < ({'c11': 0.5}.get(focus, 0.2)) and ('port' not in st or rng.random() < 0.4)
     if rng.random() < 0.5:
         st['known'] = gen_known(rng, svcs)
     if rng.random() < ({'c11': 0.2}.get(focus, 0.06)):
@@ -574,12 +577,20 @@ def gen_resp(rng: random.Random, sid: str, focus: str, thorough: bool = False) -
             same = rng.random() < 0.5
             if not same:
                 sp['txt'] = rng.choice([b'\x03a=1', b'\x03a=2', b'']).hex()
+            if rng.random() < 0.4:
+                sp['other_ttl'] = rng.choice([4500, 120, 30])
+                # a host's address records have one TTL: services sharing a host name keep the same host TTL (domain)
+                if not any(x['host'] == sp['host'] for x in live if x['sid'] != sp['sid']):
+                    sp['host_ttl'] = rng.choice([120, 120, 60])
             live[i] = sp
             steps.append({'op': 'upd', 'svc': sp, 'same_object': same})
             continue
         if r < p_unreg + 0.10 and [s for s in svcs if s['sid'] not in [x['sid'] for x in live] and busy[s['sid']] <= t]:
             gone = [s for s in svcs if s['sid'] not in [x['sid'] for x in live] and busy[s['sid']] <= t]
-            sp = rng.choice(gone)
+            sp = dict(rng.choice(gone))
+            same_host = [x for x in live if x['host'] == sp['host']]
+            if same_host:
+                sp['host_ttl'] = same_host[0]['host_ttl']       # one TTL per host name (domain, see the update step)
             busy[sp['sid']] = t + 500
             live.append(sp)
             steps.append({'op': 'reg', 'svc': sp, 'coop': True})
